@@ -156,6 +156,8 @@ func rootAlloc(v ssa.Value) *ssa.Alloc {
 				return nil
 			}
 			v = x.X
+		case *ssa.ChangeType:
+			v = x.X // chan T → chan<- T / <-chan T when a channel is handed to a helper
 		case *ssa.FreeVar:
 			fn := x.Parent()
 			idx := -1
@@ -339,6 +341,9 @@ func (s *exState) ex(v ssa.Value) string {
 	case *ssa.SliceToArrayPointer:
 		return typeStr(v.Type()) + "(" + s.ex(v.X) + ")"
 	case *ssa.Phi:
+		if tv := threadedValue(v); tv != nil {
+			return s.ex(tv)
+		}
 		if s.seen[v] {
 			return "phi@" + v.Name()
 		}
@@ -1969,5 +1974,66 @@ func newFieldInit(fa *ssa.FieldAddr) ssa.Value {
 		return nil
 	}
 	fieldInitCache[f] = val
+	return val
+}
+
+// threadedValue: p joins the results of a (typically inlined) helper that returns (value, error): in p's block
+// there is an error-typed phi that is nil exactly on the edges where the helper succeeded and non-nil on the others,
+// and p carries a zero constant on the failing edges. On every use that is guarded by the usual `err != nil → return`
+// the value of p is its success-edge value; that value is returned when it is unique, nil otherwise.
+func threadedValue(p *ssa.Phi) ssa.Value {
+	if typeStr(p.Type()) == "error" || len(p.Edges) < 2 {
+		return nil
+	}
+	var errPhi *ssa.Phi
+	for _, in := range p.Block().Instrs {
+		q, ok := in.(*ssa.Phi)
+		if !ok {
+			break
+		}
+		if q != p && typeStr(q.Type()) == "error" {
+			errPhi = q
+		}
+	}
+	if errPhi == nil {
+		return nil
+	}
+	var val ssa.Value
+	nFail := 0
+	for i, e := range p.Edges {
+		if isNilConst(errPhi.Edges[i]) {
+			if val != nil && val != e {
+				return nil
+			}
+			val = e
+			continue
+		}
+		// failing edge: p must carry the zero value there
+		nFail++
+		c, isC := e.(*ssa.Const)
+		if !isC {
+			return nil
+		}
+		if c.Value != nil {
+			if k, ok := constInt(c); !ok || k != 0 {
+				return nil
+			}
+		}
+	}
+	if nFail == 0 || val == nil {
+		return nil
+	}
+	// the error must be tested right after the join: an If on errPhi != nil in the block or its single successor chain
+	tested := false
+	if errPhi.Referrers() != nil {
+		for _, rf := range *errPhi.Referrers() {
+			if b, ok := rf.(*ssa.BinOp); ok && (b.Op == token.NEQ || b.Op == token.EQL) && (isNilConst(b.X) || isNilConst(b.Y)) {
+				tested = true
+			}
+		}
+	}
+	if !tested {
+		return nil
+	}
 	return val
 }
